@@ -26,6 +26,8 @@ CASCADE = [
     # depth 2: grandparent cancelled from the task that owns the grandchild
     'mult=32;sets=ctsL.4.0,ctsL.4.1,ctsH.4.1;throws=;d1=newpool2,new1,schedfq1.1,wait1,del1,delpool;'
     'b1=new2,schedfq2.2,wait2,del2;b2=new3,schedfq3.3,cancel1,sched3.4,schedfq3.5,wait3,del3',
+    # a child constructed under an already cancelled parent starts cancelled (TsCtorLoadPCancel / TsCtorStoreCancel)
+    'mult=32;sets=ctsL.4.0,ctsL.1.1;throws=;d1=newpool1,new1,schedfq1.1,wait1,del1,delpool;b1=cancel1,new2,sched2.2,schedfq2.3,bulk2.4.2,wait2,del2',
     # kOff child is NOT cancelled by the cascade
     'mult=32;sets=ctsL.4.0,ts.1.0;throws=;d1=newpool1,new1,schedfq1.1,wait1,del1,delpool;b1=new2,schedfq2.2,cancel1,sched2.3,wait2,del2',
 ]
